@@ -248,6 +248,7 @@ func (d *arpDriver) step(a action) (rec map[string]interface{}) {
 			return nil
 		}
 		c.mu.Lock()
+		l.closed = d.closed // the loop reads `closed` under the mutex together with its membership lookup
 		rec["hunting"], rec["tgt"] = l.hunting, "nilmac"
 		if l.hunting {
 			rec["tgt"] = d.u.HuntMACName(l.tgt.MAC)
@@ -259,7 +260,7 @@ func (d *arpDriver) step(a action) (rec map[string]interface{}) {
 			return nil
 		}
 		c.mu.Lock()
-		pos, expectDone := l.pos, !l.hunting || d.closed
+		pos, expectDone := l.pos, !l.hunting || l.closed
 		c.mu.Unlock()
 		if pos != "act" {
 			return nil
